@@ -2,7 +2,7 @@
    concrete witness evaluated on the model (the same witnesses are replayed on the real code by the
    check: known_findings.d/C16.json). *)
 From Coq Require Import List Bool NArith Arith.
-From PV Require Import C16.Model.
+From PV Require Import C16.Model C16.Concurrent.
 Import ListNotations.
 
 Definition sP : str := [112]%N.  (* "p" *)
@@ -125,3 +125,24 @@ Proof.
   split; [right; right; left; reflexivity|]. split; [reflexivity|].
   exists 1%N, 1%N, 1%N, None. split; [vm_compute; reflexivity | discriminate].
 Qed.
+
+(* C16-RESULTS-TORN (open).  Context.store_results rewrites results.json in place: results 1 are stored
+   successfully; the process dies while results 2 are being written (operation 10 cut after 1 unit); after the
+   restart retrieve_results fails (JSONDecodeError) — the results stored earlier are gone. *)
+Theorem torn_results_refuted :
+  exists (w : list witem) (k j : nat) (c : option str),
+    results (firstn 2 w) [] = [inr tt; inr tt]
+    /\ snd (retrieve_results c (crash_w [] w k None)) = inr 1%N
+    /\ snd (retrieve_results c (crash_w [] w k (Some j))) = inl ECorrupt.
+Proof. exists [WInit; WResults None 1%N; WResults None 2%N], 10, 1, None. vm_compute. auto. Qed.
+
+(* C16-INIT-RACE (open).  The context directory is created outside every lock by a check followed by a mkdir
+   without exist_ok (LocalDirectoryContext._init_path): two processes opening the same new context at the
+   same time both see "not a directory"; the second mkdir raises FileExistsError — although each of them
+   alone, in either order, succeeds. *)
+Theorem context_init_race_refuted :
+  exists sched : list bool,
+    (let '(a, b, _) := irun sched [] in (a, b)) = (IDone, IFail EFileExists)
+    /\ (let '(a, b, _) := irun [true; true; false; false] [] in (a, b)) = (IDone, IDone)
+    /\ (let '(a, b, _) := irun [false; false; true; true] [] in (a, b)) = (IDone, IDone).
+Proof. exists [true; false; true; false]. vm_compute. auto. Qed.
